@@ -386,7 +386,15 @@ func (w *ResponseWriter) WriteMsg(m *dns.Msg) error {
 		m.AuthenticatedData = false
 	}
 
-	if w.Proto() == "udp" && udpOverflow(m, w.size) {
+	// A stream transport has a limit too: the two-octet length prefix. A
+	// reply composed past it (an alias plus a large target RRset) cannot be
+	// framed; the transport refuses it and, unless it is cut down here, the
+	// client hears nothing at all, on every retry.
+	limit := w.size
+	if w.Proto() != "udp" {
+		limit = dns.MaxMsgSize
+	}
+	if udpOverflow(m, limit) {
 		// A truncated response is a retry signal, not a partial answer
 		// (RFC 2181 §9): the client must discard the content and ask
 		// again over TCP, so everything but the question and the OPT
